@@ -34,7 +34,7 @@ IsEv(e) == l <= Len(Trace) /\ Line.ev = e /\ l' = l + 1
 TraceInit ==
    /\ l = 1 /\ caseIdx = -1 /\ cScript = <<>> /\ oRaw = <<>> /\ oErrs = <<>> /\ oLogs = <<>> /\ oInvoked = 0
    /\ oScript = <<>> /\ oEnd = <<>> /\ diverged = FALSE
-   /\ cfg = [strict |-> FALSE, reqClass |-> "valid_post", errMode |-> "default", gate |-> "validator", opt |-> "none"]
+   /\ cfg = [strict |-> FALSE, reqClass |-> "valid_post", errMode |-> "default", gate |-> "validator", opt |-> "none", primer |-> "none"]
    /\ phase = "done" /\ w = WInit /\ hdr = "none" /\ script = <<>> /\ cOut = <<>>
    /\ invoked = 0 /\ errs = <<>> /\ logs = <<>>
 
